@@ -53,7 +53,8 @@ func randCase(t *rapid.T, s string) string {
 	return string(b)
 }
 
-var segAtoms = []string{"a", "b", "x1", "%41", "%5B", "%20", "%C3%A9", "-", "_"}
+// "%25" is the escaped percent sign: followed by "41" the decoded value is the text "%41", which must not be decoded again
+var segAtoms = []string{"a", "b", "x1", "%41", "%5B", "%20", "%C3%A9", "-", "_", "%25", "%25", "41"}
 
 func genSeg(t *rapid.T) (raw, decoded string) {
 	n := rapid.IntRange(1, 3).Draw(t, "segN")
@@ -68,6 +69,8 @@ func genSeg(t *rapid.T) (raw, decoded string) {
 			decoded += "["
 		case "%20":
 			decoded += " "
+		case "%25":
+			decoded += "%"
 		case "%C3%A9":
 			decoded += "é"
 		default:
